@@ -563,6 +563,30 @@ carquet_column_reader_t* carquet_reader_get_column(
     col_reader->type = col_reader->col_meta->type;
     col_reader->type_length = schema_elem->type_length;
 
+    /* Callers size their value buffers from the schema; the decoder sizes its
+     * copies from the chunk metadata. The two must describe the same type. */
+    if (schema_elem->has_type && schema_elem->type != col_reader->col_meta->type) {
+        int chunk_type = (int)col_reader->col_meta->type;
+        free(col_reader);
+        CARQUET_SET_ERROR(error, CARQUET_ERROR_INVALID_METADATA,
+            "Column chunk type %d differs from schema type %d",
+            chunk_type, (int)schema_elem->type);
+        return NULL;
+    }
+    if (col_reader->type == CARQUET_PHYSICAL_FIXED_LEN_BYTE_ARRAY &&
+        col_reader->type_length <= 0) {
+        free(col_reader);
+        CARQUET_SET_ERROR(error, CARQUET_ERROR_INVALID_METADATA,
+            "FIXED_LEN_BYTE_ARRAY column without a positive type_length");
+        return NULL;
+    }
+    if (col_reader->col_meta->num_values < 0) {
+        free(col_reader);
+        CARQUET_SET_ERROR(error, CARQUET_ERROR_INVALID_METADATA,
+            "Negative value count in column chunk");
+        return NULL;
+    }
+
     col_reader->values_remaining = col_reader->col_meta->num_values;
     col_reader->data_start_offset = col_reader->col_meta->data_page_offset;
 
